@@ -159,6 +159,8 @@ class Engine(CoreMixin, ExprMixin, CallMixin, StmtMixin, SpecMixin):
                     else:
                         v = self.sym_for_spec(nm, spec.rstrip('!'), fresh=False)
                         st.locals[nm] = v
+                        if isinstance(v, Obj):
+                            st.pc.append(alloc0(v.ref))
                         if isinstance(v, Obj) and spec.endswith('!'):
                             st.pc.append(v.ref != NONE)
         entry = st.copy()
